@@ -38,8 +38,10 @@ func init() {
 		switch id {
 		case "C09":
 			lvl = "fault_enumeration"
-		case "C07", "C08", "C10":
+		case "C07":
 			lvl = "exploration"
+		case "C10":
+			lvl = "proof"
 		}
 		mods := []string{}
 		factsOK := false
@@ -60,6 +62,8 @@ func init() {
 		case "C07":
 			mods = []string{"Verif.Properties.C07"}
 			factsOK = true
+		case "C08":
+			mods = []string{"Verif.Properties.C08"}
 		case "C09":
 			mods = []string{"Verif.Properties.C06", "Verif.Properties.C20", "Verif.Properties.C03"}
 		case "C10":
